@@ -40,6 +40,7 @@ type Exploration struct {
 	Note     string         `json:"note,omitempty"`
 	Bounds   string         `json:"bounds,omitempty"`
 	NoTwin   bool           `json:"no_twin,omitempty"`
+	Replay   string              `json:"replay,omitempty"`   // "native" (default) or "symx" (re-run of the recorded path in the interpreter; for engine-level obligations with no native counterpart)
 	Solver   string              `json:"solver,omitempty"`   // "z3" (default) or "cvc5"
 	SolverMs int                 `json:"solver_ms,omitempty"`
 	Validate []map[string]string `json:"validate,omitempty"` // concrete input vectors for translator validation
@@ -58,6 +59,7 @@ type Finding struct {
 	Harness  string `json:"harness"`
 	Label    string `json:"label"`
 	Tag      string `json:"tag,omitempty"`
+	Explorations []string `json:"explorations,omitempty"` // exploration id prefixes this finding is limited to (empty = any)
 	Status   string `json:"status"` // "known" or "fixed"
 	Commit   string `json:"commit,omitempty"`
 	What     string `json:"what"`
@@ -509,16 +511,32 @@ func cmdCheck(args []string) int {
 					b, _ = json.MarshalIndent(rf, "", " ")
 					os.WriteFile(path, b, 0o644)
 				}
-				reproduced, lastOut = rp.run(path, rf)
+				if e.Replay == "symx" {
+					ropt := interp.Options{Workers: 1, Params: e.Params, Fixed: rf.Inputs, FixedChoices: rf.Choices, MaxSteps: e.MaxSteps}
+					if ropt.Fixed == nil {
+						ropt.Fixed = map[string]string{}
+					}
+					rres := interp.Explore(h, ropt)
+					for _, rv := range rres.Violations {
+						if rv.Label == v.Label {
+							reproduced = true
+						}
+					}
+					lastOut = fmt.Sprintf("symx re-run: %d violations, observes=%v", len(rres.Violations), rres.Observes)
+				} else {
+					reproduced, lastOut = rp.run(path, rf)
+				}
 			}
 			if !reproduced {
 				fmt.Printf("INCONCLUSIVE property=%s exploration=%s label=%q tag=%q: solver counterexample did not reproduce natively (%d paths)\n%s\n", prop, e.ID, v.Label, v.Tag, len(vs), firstLines(lastOut, 15))
 				notClean = append(notClean, e.ID+": unreproduced counterexample "+v.Label)
 				continue
 			}
-			if kfnd := matchFinding(kf.Findings, prop, e.Fn, v.Label, v.Tag); kfnd != nil {
-				knownHit[kfnd.What]++
-				fmt.Printf("KNOWN-FINDING: property=%s %s [harness=%s label=%s tag=%s paths=%d replay=%s]\n", prop, kfnd.What, e.Fn, v.Label, v.Tag, len(vs), path)
+			if kfnd := matchFinding(kf.Findings, prop, e.Fn, v.Label, v.Tag, e.ID); kfnd != nil {
+				if knownHit[kfnd.What] == 0 {
+					fmt.Printf("KNOWN-FINDING: property=%s %s [first seen: exploration=%s harness=%s label=%s tag=%s replay=%s]\n", prop, kfnd.What, e.ID, e.Fn, v.Label, v.Tag, path)
+				}
+				knownHit[kfnd.What] += len(vs)
 				continue
 			}
 			violLines = append(violLines, fmt.Sprintf("VIOLATION property=%s replay=%s", prop, path))
@@ -590,11 +608,22 @@ func sanitize(s string) string {
 	return sb.String()
 }
 
-func matchFinding(fs []Finding, prop, harness, label, tag string) *Finding {
+func matchFinding(fs []Finding, prop, harness, label, tag, explID string) *Finding {
 	for k := range fs {
 		f := &fs[k]
 		if f.Status != "known" || f.Property != prop {
 			continue
+		}
+		if len(f.Explorations) > 0 {
+			ok := false
+			for _, pre := range f.Explorations {
+				if strings.HasPrefix(explID, pre) {
+					ok = true
+				}
+			}
+			if !ok {
+				continue
+			}
 		}
 		if f.Harness != "" && f.Harness != harness {
 			continue
